@@ -4,6 +4,7 @@ import (
 	"fmt"
 	"go/token"
 	"go/types"
+	"hash/fnv"
 	"math/big"
 	"os"
 	"path/filepath"
@@ -27,6 +28,8 @@ type Obligation struct {
 	Output  string   `json:"output,omitempty"`
 	SMTFile string   `json:"smt_file,omitempty"`
 	Model   string   `json:"model,omitempty"`
+	Cached  bool     `json:"cached,omitempty"`
+	hash    string
 
 	goal      string
 	at        int
@@ -175,14 +178,11 @@ type Gen struct {
 }
 
 func (g *Gen) tagOf(t types.Type) int {
+	// deterministic across runs and goroutine schedules (queries are cached by their text)
 	s := types.TypeString(t, nil)
-	if n, ok := g.tags[s]; ok {
-		return n
-	}
-	n := len(g.tags) + 1
-	g.tags[s] = n
-	g.tagNames = append(g.tagNames, s)
-	return n
+	h := fnv.New32a()
+	h.Write([]byte(s))
+	return int(h.Sum32()%1000000000) + 1
 }
 
 // ---------------------------------------------------------------------------
